@@ -107,6 +107,19 @@ CHECKS = {
         note="APIs documented as not thread-safe or misuse are excluded (Resolver(), DisposeForce, Import, TestMockClock, SetSchema, Dispose). The race detector only sees executed accesses.",
         technique="Go race detector (-race, report blocks parsed from per-process logs) over generated concurrent API programs with schedule-point yields",
         engine="concmach", design_ref="5/C12"),
+    "C13": dict(
+        level="exploration",
+        text="Generated disposal scenarios: machines with/without handlers, 0-20 open subscriptions of every kind and state contexts, 0-3 dispose handlers (OnDispose / "
+             "amhelp.DisposeBind), 0-4 concurrent mutators; disposal by Dispose, double and concurrent Dispose, parent-ctx cancel, amhelp.Dispose with DisposedHandlers, DisposeForce (idle); "
+             "issued from outside, a negotiation handler, a final handler or an Eval body; landing points placed with gates at the dispose.* schedule points and inside handlers "
+             "(queue running, mid-negotiation, mid-final, during Eval, during another dispose). After WhenDisposed closes ~45 assertions run: every earlier channel/ctx closed, each "
+             "dispose handler ran exactly once, mutations/Can* return Canceled, Is/Any false, When* already closed, ActiveStates/Queue/Clock empty, no other getter panics or blocks "
+             "(each probe under a watchdog, block classified from the goroutine dump), and no handlerLoop goroutine is left. A process-fatal error (panic in a mutator goroutine) is "
+             "attributed to the running case.",
+        note="Parent-ctx cancelation is only used with a handler loop (nothing watches the parent ctx otherwise). WhenDisposed still open after 30s is a violation only if no dispose frame is in the dump. "
+             "QueueLimit is raised so that hostile mutators cannot legitimately cancel the state-based disposal mutations.",
+        technique="runtime monitor: gate-placed disposal at verif schedule points, post-dispose assertion battery with watchdogs, goroutine-dump inspection, child-process crash attribution",
+        engine="concmach", design_ref="5/C13"),
     "C11": dict(
         level="exploration",
         text="Each generated (schema rich in Auto/mutual-Remove/Add-fan/independent-Require structure, static veto table, history) case is executed on 64 fresh "
